@@ -3,6 +3,6 @@ CONSTANTS
   None = "None"
 SPECIFICATION Spec
 INVARIANTS TypeOK NoDup HandLive AllBitsSet
-PROPERTIES VictimWasCandidate VictimAnswers CandidatesRight
+PROPERTIES VictimWasCandidate VictimAnswers CandidatesRight Refines
 VIEW View
 CHECK_DEADLOCK FALSE
